@@ -53,6 +53,10 @@ RULES_REQUIRED = [
     'writer_satisfies_sizeRule', 'mutation_numrows_falsifies_sizeRule', 'writer_satisfies_siddSegOk', 'mutation_pixeltype_falsifies_siddSegOk',
     'writer_satisfies_sicdScan', 'mutation_no_sicd_des_falsifies_sicdScan', 'mutation_second_sicd_des_falsifies_sicdScan',
     'mutation_sidd_des_falsifies_sicdScan', 'writer_satisfies_siddFound',
+    'lookup_checkCall', 'check_independent_of_history', 'stale_entry_survives', 'history_then_check_eq_fresh', 'verdict_independent_of_history',
+    'history_keys', 'full_check_after_history_eq_fresh', 'resolve_defined',
+    'lookupParam_eq_some_iff', 'lookupParam_perm', 'perChannel_perm_params', 'perChannel_perm_data', 'allChannelsPass_perm',
+    'mutation_identifiers_swapped', 'position_pairing_differs',
 ]
 
 # bridge theorem -> the translated rule / table it ties
@@ -76,16 +80,43 @@ def regen():
     return {'hashes': r['hashes'], 'unsupported': r['unsupported'], 'changed': r['changed'], 'rules': r['rules']}
 
 
+def audit2(modules, namespaces):
+    """one Lean run for several modules / namespaces (common.audit starts Lean once per module)"""
+    import common
+    d = os.path.join(LEAN, '.lake', 'audit')
+    os.makedirs(d, exist_ok=True)
+    path = os.path.join(d, 'Audit_C18Rules.lean')
+    src = common.AUDIT_TMPL.format(module=modules[0], ns=namespaces[0])
+    src = ''.join(f'import {m}\n' for m in modules[1:]) + src
+    src = src.replace('if pre.isPrefixOf n && !n.isInternalDetail then',
+                      'if (pre.isPrefixOf n' + ''.join(f' || (`{ns} : Name).isPrefixOf n' for ns in namespaces[1:]) + ') && !n.isInternalDetail then')
+    with open(path, 'w') as f:
+        f.write(src)
+    rc, out, err = common.sh(['lake', 'env', 'lean', path], cwd=LEAN, timeout=900)
+    if rc != 0:
+        raise common.Infra('audit failed: ' + (out + err)[-2000:])
+    res = {}
+    for line in out.splitlines():
+        if line.startswith('AUDIT '):
+            name, _, ax = line[6:].partition(' :: ')
+            res[name.strip()] = ax.split()
+    return res
+
+
 def prove(chk, gen_info):
     """build + audit of the two extension modules.  The bridge module depends on regenerated code: when it does not build, the
     broken theorems are located by the line numbers of the errors.  -> (broken obligations, names of broken rules)"""
     broken, broken_rules = [], set()
     thms = {}
-    ok, failed, errors, log = lake_build(['SarpyModel.Props.C18Rules'])
-    if not ok:
+    ok_rules, failed, errors, log = lake_build(['SarpyModel.Props.C18Rules'])
+    ok_bridge = lake_build(['SarpyModel.Bridge.CheckerRules'])[0]
+    both = None
+    if ok_rules and ok_bridge:
+        both = audit2(['SarpyModel.Props.C18Rules', 'SarpyModel.Bridge.CheckerRules'], ['Sarpy.Props.C18Rules', 'Sarpy.Bridge.Chk'])
+    if not ok_rules:
         broken.append('SarpyModel.Props.C18Rules (lake build failed): ' + '; '.join(f'{f}:{l}: {m}' for f, l, c, m in errors[:3]))
     else:
-        t = audit('SarpyModel.Props.C18Rules', 'Sarpy.Props.C18Rules')
+        t = {k: v for k, v in both.items() if k.startswith('Sarpy.Props.C18Rules.')} if both is not None else audit('SarpyModel.Props.C18Rules', 'Sarpy.Props.C18Rules')
         thms.update(t)
         broken += [f'Sarpy.Props.C18Rules.{r} (required theorem missing)' for r in RULES_REQUIRED if f'Sarpy.Props.C18Rules.{r}' not in t]
     for name, why in gen_info['unsupported']:
@@ -120,7 +151,7 @@ def prove(chk, gen_info):
         chk.coverage['build_errors'] += [f'{f}:{l}:{c}: {m}' for f, l, c, m in errors[:10]]
         nb = len(BRIDGE_REQUIRED)
     else:
-        t = audit('SarpyModel.Bridge.CheckerRules', 'Sarpy.Bridge.Chk')
+        t = {k: v for k, v in both.items() if k.startswith('Sarpy.Bridge.Chk.')} if both is not None else audit('SarpyModel.Bridge.CheckerRules', 'Sarpy.Bridge.Chk')
         thms.update(t)
         for r, rule in BRIDGE_REQUIRED.items():
             if f'Sarpy.Bridge.Chk.{r}' not in t:
@@ -404,6 +435,24 @@ def cphd_file_observations(buf):
             lobs.append(dict(kind='present', line=f'chkspec present {tok(hd["kv"][key])} ' + ('N' if x is None else tok(x)), oracle=(x is not None and x == hd['kv'][key]),
                              check='check_classification_and_release_info', text=text))
     return obs, lobs
+
+
+def channel_assoc(xml_bytes, truth):
+    """which /Channel/Parameters node belongs to which /Data/Channel entry.  `truth` = {channel identifier: its FxC} from the generator.
+    -> (driver line, [expected passed of the FxC rule per Data channel, by Identifier lookup], [channel identifiers])"""
+    root = _strip_ns(ET.fromstring(xml_bytes))
+    tok = Tokens()
+    data = [e.text for e in root.findall('./Data/Channel/Identifier')]
+    params = [(p.findtext('Identifier'), float(p.findtext('FxC'))) for p in root.findall('./Channel/Parameters')]
+    if set(data) - set(truth):
+        return None
+    line = 'chkspec perchan ' + tok.many(data) + ' ' + (','.join(f'{tok(i)}:{tok(repr(v))}' for i, v in params) or '-') + ' ' + \
+        (','.join(f'{tok(i)}:{tok(repr(float(v)))}' for i, v in truth.items()) or '-')
+    want = []
+    for cid in data:
+        node = [v for i, v in params if i == cid]
+        want.append(None if not node else node[0] == float(truth[cid]))
+    return line, want, data
 
 
 def recorded(allr, check, text, sev=None):
